@@ -40,6 +40,25 @@ def public_layer_lookup(p, m):
     return got[0] == want, f"layer L1=[{p!r}], L2=[{other!r}], import {m!r} -> {other!r}: 'L1 should not access L2' -> {got}, expected {want} ({m!r} {'is' if _anc(p, m) else 'is not'} part of {p!r})"
 
 
+def public_layer_nested(p, q, m):
+    """Layer L1 lists p and its sub package q, L2 lists 'zz.other'.  A module of L1 (q, or p when m is q) imports m:
+    if m is part of p this stays inside L1 and never counts, otherwise it is an access to something that is not L2.
+    So 'L1 should not access layers except L2' passes exactly when m is part of p."""
+    from pytestarch import LayeredArchitecture, LayerRule
+    from vf.engine.stubs_graph import real_architecture
+    from vf.universes import evaluate
+
+    other = "zz.other"
+    nodes = sorted({p, q, m, other})
+    edge = (q, m) if m != q else (p, m)
+    ev = real_architecture(nodes, [edge])
+    arch = LayeredArchitecture().layer("L1").containing_modules([p, q]).layer("L2").containing_modules([other])
+    rule = LayerRule().based_on(arch).layers_that().are_named("L1").should_not().access_layers_except_layers_that().are_named("L2")
+    got = evaluate(rule, ev, with_message=True)
+    want = "PASS" if _anc(p, m) else "FAIL"
+    return got[0] == want, f"layer L1=[{p!r}, {q!r}], L2=[{other!r}], import {edge[0]!r} -> {edge[1]!r}: 'L1 should not access layers except L2' -> {got}, expected {want} ({m!r} {'is' if _anc(p, m) else 'is not'} part of {p!r})"
+
+
 def public_anything(a, b):
     """subjects [a, b] should_not import_anything, b imports zz: must fail whenever b is a subject that is not a
     sub module of a (and must fail as well when it is: a's sub modules are judged with a)."""
@@ -89,6 +108,26 @@ KERNELS = [
         "ladder": [4, 3],
         "quick_skip_first": True,
         "timeout": 150,
+        "requires": ["pytestarch.eval_structure.evaluable_architecture:LayerMapping.get_layer_for_module_name"],
+        "functions": ["eval_structure.evaluable_architecture:LayerMapping.get_layer_for_module_name"],
+    },
+    {
+        # one layer listing a package AND one of its own sub packages: every module below the package belongs to it
+        "name": "layer_lookup_nested_listing",
+        "imports": [
+            "from pytestarch.eval_structure.evaluable_architecture import LayerMapping, ModuleNameFilter",
+        ],
+        "helpers": HELPERS,
+        "sig": "(p: str, q: str, m: str) -> bool",
+        "pre": ["wf(p, {N} - 2)", "wf(q, {N})", "wf(m, {N})", "q != p and anc(p, q)"],
+        "post": "_ == anc(p, m)",
+        "body": """
+            return LayerMapping({"L": [HF(name=p), HF(name=q)]}).get_layer_for_module_name(m) == "L"
+        """,
+        "ladder": [5, 4],
+        "quick_skip_first": True,
+        "timeout": 150,
+        "public": "public_layer_nested",
         "requires": ["pytestarch.eval_structure.evaluable_architecture:LayerMapping.get_layer_for_module_name"],
         "functions": ["eval_structure.evaluable_architecture:LayerMapping.get_layer_for_module_name"],
     },
